@@ -1,5 +1,13 @@
 (* C13: positions reported to the output.text / output.field callbacks are exact.
-   Invariant of the output stream, for every sequence of stream operations. *)
+   Invariants of the output stream, for every sequence of stream operations.
+
+   Part A (any option strings): offset = length of everything written before; line and column
+   are relative to the line ends the stream itself accounts for (its own newline pushes and the
+   line feeds inside field texts).
+   Part B (newline option = some LF-free prefix followed by LF, e.g. "\n" or "\r\n"; indent and
+   baseIndent LF-free; plain text pushes LF-free): line = number of line feeds in the text
+   written before, column = number of characters after the last of them, i.e. line and column
+   as read off the final string. *)
 From Emmet Require Import lib.Base model.MarkupConvert model.OutStream.
 Local Open Scope nat_scope.
 
@@ -8,17 +16,92 @@ Definition ev_line (e : oevent) : nat := match e with EvText _ _ _ l _ => l | Ev
 Definition ev_col (e : oevent) : nat := match e with EvText _ _ _ _ c => c | EvField _ _ _ _ c => c end.
 Definition is_nl (e : oevent) : bool := match e with EvText true _ _ _ _ => true | _ => false end.
 
+(* ---------------------------------------------------------------- line feeds *)
+Lemma lf_count_app a b : lf_count (a ++ b) = lf_count a + lf_count b.
+Proof. induction a as [|c a IH]; cbn [lf_count app]; [reflexivity|]. rewrite IH. lia. Qed.
+
+Lemma col_after_app c a b : col_after c (a ++ b) = col_after (col_after c a) b.
+Proof.
+  revert c. induction a as [|x a IH]; intros c; cbn [col_after app]; [reflexivity|].
+  destruct (x =? c_nl)%N; apply IH.
+Qed.
+
+Lemma col_after_nolf c s : lf_count s = 0 -> col_after c s = c + length s.
+Proof.
+  revert c. induction s as [|x s IH]; intros c H; cbn [col_after length lf_count] in *; [lia|].
+  destruct (x =? c_nl)%N; [discriminate|]. rewrite IH by lia. lia.
+Qed.
+
+Lemma col_after_lf c s : 0 < lf_count s -> col_after c s = col_after 0 s.
+Proof.
+  revert c. induction s as [|x s IH]; intros c H; cbn [col_after lf_count] in *; [lia|].
+  destruct (x =? c_nl)%N; [reflexivity|].
+  rewrite (IH (S c)) by lia. rewrite (IH 1) by lia. reflexivity.
+Qed.
+
+Lemma col_after_le s : col_after 0 s <= length s.
+Proof.
+  assert (G : forall c, col_after c s <= c + length s).
+  { induction s as [|x s IH]; intros c; cbn [col_after length]; [lia|].
+    destruct (x =? c_nl)%N; [specialize (IH 0)|specialize (IH (S c))]; lia. }
+  apply (G 0).
+Qed.
+
+Lemma lf_count_repeat s n : lf_count s = 0 -> lf_count (repeat_str s n) = 0.
+Proof. intros H. induction n as [|n IH]; cbn [repeat_str lf_count]; [reflexivity|]. rewrite lf_count_app. lia. Qed.
+
+Lemma lf_count_rev s : lf_count (rev s) = lf_count s.
+Proof. induction s as [|c s IH]; [reflexivity|]. cbn [rev lf_count]. rewrite lf_count_app, IH. cbn [lf_count]. lia. Qed.
+
+(* splitting at CR / LF / CRLF never leaves a line feed inside a line *)
+Lemma split_crlf_aux_nolf : forall n s cur, length s <= n ->
+  lf_count cur = 0 -> Forall (fun l => lf_count l = 0) (split_crlf_aux s cur).
+Proof.
+  induction n as [|n IH]; intros s cur Hn Hc; destruct s as [|c s']; cbn [split_crlf_aux length] in *; try lia.
+  - destruct cur; constructor; [|constructor]. rewrite lf_count_rev. exact Hc.
+  - destruct cur; constructor; [|constructor]. rewrite lf_count_rev. exact Hc.
+  - destruct (((c =? c_cr) || (c =? c_nl))%N) eqn:Hb.
+    + destruct s' as [|c2 s''].
+      * constructor; [rewrite lf_count_rev; exact Hc|constructor].
+      * destruct ((c =? c_cr)%N && (c2 =? c_nl)%N).
+        -- constructor; [rewrite lf_count_rev; exact Hc|]. apply IH; [|reflexivity].
+           cbn [length] in *. lia.
+        -- constructor; [rewrite lf_count_rev; exact Hc|]. apply IH; [|reflexivity].
+           cbn [length] in *. lia.
+    + apply IH; [lia|].
+      cbn [lf_count]. destruct (c =? c_nl)%N eqn:E; [|lia].
+      rewrite orb_true_r in Hb. discriminate.
+Qed.
+
+Lemma split_crlf_nolf s : Forall (fun l => lf_count l = 0) (split_crlf s).
+Proof. apply (split_crlf_aux_nolf (length s)); [lia|reflexivity]. Qed.
+
+(* ---------------------------------------------------------------- Part A: any option strings *)
 (* over the event list as stored: most recent first *)
 Fixpoint total_len (l : list oevent) : nat :=
   match l with [] => 0 | e :: older => total_len older + length (ev_text e) end.
+(* line ends an event accounts for: 1 for a newline push, the line feeds of a field text *)
+Definition ev_brk (e : oevent) : nat :=
+  match e with
+  | EvText true _ _ _ _ => 1
+  | EvText false _ _ _ _ => 0
+  | EvField _ ph _ _ _ => lf_count ph
+  end.
 Fixpoint count_nl (l : list oevent) : nat :=
-  match l with [] => 0 | e :: older => count_nl older + (if is_nl e then 1 else 0) end.
+  match l with [] => 0 | e :: older => count_nl older + ev_brk e end.
 (* offset at which the current line starts: just after the newline string of the last
-   newline push (the baseIndent that follows it belongs to the line, as the code counts it) *)
+   newline push (the baseIndent that follows it belongs to the line, as the code counts it),
+   or just after the last line feed of a field text *)
 Fixpoint line_start (f : ofmt) (l : list oevent) : nat :=
   match l with
   | [] => 0
-  | e :: older => if is_nl e then ev_off e + length (of_newline f) else line_start f older
+  | e :: older =>
+      match e with
+      | EvText true _ off _ _ => off + length (of_newline f)
+      | EvText false _ _ _ _ => line_start f older
+      | EvField _ ph off _ _ =>
+          if 0 <? lf_count ph then off + (length ph - col_after 0 ph) else line_start f older
+      end
   end.
 
 Fixpoint events_wf (f : ofmt) (l : list oevent) : Prop :=
@@ -51,7 +134,7 @@ Lemma inv_push f o s : stream_inv f o -> stream_inv f (os_push o s).
 Proof.
   unfold stream_inv, os_push, os_push_gen. cbn [os_events os_offset os_line os_column os_level].
   intros [Hw [Ho [Hl [Hc Hle]]]].
-  cbn [events_wf total_len count_nl line_start is_nl ev_off ev_line ev_col ev_text].
+  cbn [events_wf total_len count_nl line_start is_nl ev_off ev_line ev_col ev_text ev_brk].
   repeat split; try assumption; try lia; try discriminate.
 Qed.
 
@@ -59,8 +142,13 @@ Lemma inv_push_field f o i ph : stream_inv f o -> stream_inv f (os_push_field o 
 Proof.
   unfold stream_inv, os_push_field. cbn [os_events os_offset os_line os_column os_level].
   intros [Hw [Ho [Hl [Hc Hle]]]].
-  cbn [events_wf total_len count_nl line_start is_nl ev_off ev_line ev_col ev_text].
-  repeat split; try assumption; try lia; try discriminate.
+  cbn [events_wf total_len count_nl line_start is_nl ev_off ev_line ev_col ev_text ev_brk].
+  pose proof (col_after_le ph) as Hca.
+  destruct (0 <? lf_count ph) eqn:E.
+  - apply Nat.ltb_lt in E. rewrite (col_after_lf _ _ E).
+    repeat split; try assumption; try lia; try discriminate.
+  - apply Nat.ltb_ge in E. rewrite col_after_nolf by lia.
+    repeat split; try assumption; try lia; try discriminate.
 Qed.
 
 Lemma inv_push_indent f o n : stream_inv f o -> stream_inv f (os_push_indent f o n).
@@ -73,7 +161,7 @@ Proof.
   assert (H2 : stream_inv f o2).
   { unfold o2, stream_inv, os_push_gen. cbn [os_events os_offset os_line os_column os_level].
     destruct H as [Hw [Ho [Hl [Hc Hle]]]].
-    cbn [events_wf total_len count_nl line_start is_nl ev_off ev_line ev_col ev_text].
+    cbn [events_wf total_len count_nl line_start is_nl ev_off ev_line ev_col ev_text ev_brk].
     rewrite app_length. repeat split; try assumption; try lia. }
   destruct ind as [[n|]|]; [apply inv_push_indent| apply inv_push_indent|]; exact H2.
 Qed.
@@ -92,10 +180,12 @@ Proof.
 Qed.
 
 (* ---------------------------------------------------------------- reachable streams *)
+(* [r_push] is the raw push(text) used by the formatters for fixed fragments and padding:
+   they never contain a line feed (needed for Part B only) *)
 Inductive reach (f : ofmt) : ostream -> Prop :=
 | r_empty : reach f os_empty
 | r_level o l : reach f o -> reach f (os_set_level o l)
-| r_push o s : reach f o -> reach f (os_push o s)
+| r_push o s : lf_count s = 0 -> reach f o -> reach f (os_push o s)
 | r_field o i ph : reach f o -> reach f (os_push_field o i ph)
 | r_newline o ind : reach f o -> reach f (os_push_newline f o ind)
 | r_indent o n : reach f o -> reach f (os_push_indent f o n)
@@ -111,10 +201,13 @@ Qed.
 Definition chron (o : ostream) : list oevent := rev (os_events o).
 Definition text_of (evs : list oevent) : str := concat (map ev_text evs).
 
+Lemma text_of_app a b : text_of (a ++ b) = text_of a ++ text_of b.
+Proof. unfold text_of. rewrite map_app, concat_app. reflexivity. Qed.
+
 Lemma total_len_text l : total_len l = length (text_of (rev l)).
 Proof.
-  induction l as [|e l IH]; [reflexivity|]. cbn [total_len rev]. unfold text_of in *.
-  rewrite map_app, concat_app, app_length. cbn [map concat]. rewrite app_nil_r. lia.
+  induction l as [|e l IH]; [reflexivity|]. cbn [total_len rev]. rewrite text_of_app, app_length.
+  unfold text_of at 2. cbn [map concat]. rewrite app_nil_r. lia.
 Qed.
 
 Lemma wf_split f : forall l a e b,
@@ -137,8 +230,8 @@ Proof.
 Qed.
 
 (* offset: exactly the length of everything pushed before, i.e. where the returned string
-   lands in the final value; line: the number of newlines pushed before; column: distance
-   from the start of the current line (the end of the last pushed newline string) *)
+   lands in the final value; line: the number of line ends accounted before; column: distance
+   from the start of the current line *)
 Theorem positions_exact f o a e b :
   reach f o -> chron o = a ++ e :: b ->
   ev_off e = length (text_of a) /\
@@ -149,6 +242,131 @@ Proof.
   intros Hr Hs. pose proof (reach_inv f o Hr) as [Hw _].
   destruct (wf_split f (os_events o) a e b Hw Hs) as [H1 [H2 [H3 _]]].
   repeat split; try assumption.
-  unfold os_value. fold (chron o). rewrite Hs. unfold text_of.
-  rewrite map_app, concat_app. cbn [map concat]. reflexivity.
+  change (os_value o) with (text_of (chron o)). rewrite Hs, text_of_app. reflexivity.
+Qed.
+
+(* ---------------------------------------------------------------- Part B: read off the final string *)
+(* the newline option ends a line with a line feed (and has no other), indentation has none *)
+Definition fmt_lf (f : ofmt) : Prop :=
+  (exists pre, of_newline f = pre ++ [c_nl] /\ lf_count pre = 0) /\
+  lf_count (of_base_indent f) = 0 /\ lf_count (of_indent f) = 0.
+
+(* line and column of the position just after [s], as any editor computes them *)
+Definition line_of (s : str) : nat := lf_count s.
+Definition column_of (s : str) : nat := col_after 0 s.
+
+Fixpoint val (l : list oevent) : str :=
+  match l with [] => [] | e :: older => val older ++ ev_text e end.
+
+Lemma val_text l : val l = text_of (rev l).
+Proof.
+  induction l as [|e l IH]; [reflexivity|]. cbn [val rev]. rewrite text_of_app, IH.
+  unfold text_of at 3. cbn [map concat]. rewrite app_nil_r. reflexivity.
+Qed.
+
+Fixpoint events_lf (l : list oevent) : Prop :=
+  match l with
+  | [] => True
+  | e :: older =>
+      events_lf older /\
+      ev_off e = length (val older) /\
+      ev_line e = line_of (val older) /\
+      ev_col e = column_of (val older)
+  end.
+
+Definition stream_lf (o : ostream) : Prop :=
+  events_lf (os_events o) /\
+  os_offset o = length (val (os_events o)) /\
+  os_line o = line_of (val (os_events o)) /\
+  os_column o = column_of (val (os_events o)).
+
+Lemma lf_empty : stream_lf os_empty.
+Proof. unfold stream_lf, os_empty; cbn. repeat split. Qed.
+
+Lemma lf_push_gen b o s : lf_count s = 0 -> stream_lf o -> stream_lf (os_push_gen b o s).
+Proof.
+  unfold stream_lf, os_push_gen, line_of, column_of. cbn [os_events os_offset os_line os_column os_level].
+  intros Hs [Hw [Ho [Hl Hc]]]. cbn [events_lf val ev_off ev_line ev_col ev_text].
+  rewrite app_length, lf_count_app, col_after_app, (col_after_nolf _ s Hs).
+  unfold line_of, column_of. repeat split; try assumption; lia.
+Qed.
+
+Lemma lf_push_field o i ph : stream_lf o -> stream_lf (os_push_field o i ph).
+Proof.
+  unfold stream_lf, os_push_field, line_of, column_of. cbn [os_events os_offset os_line os_column os_level].
+  intros [Hw [Ho [Hl Hc]]]. cbn [events_lf val ev_off ev_line ev_col ev_text].
+  rewrite app_length, lf_count_app, col_after_app.
+  unfold line_of, column_of. repeat split; try assumption; try lia. rewrite Hc. reflexivity.
+Qed.
+
+Lemma lf_push_indent f o n : fmt_lf f -> stream_lf o -> stream_lf (os_push_indent f o n).
+Proof. intros [_ [_ Hi]]. apply lf_push_gen, lf_count_repeat, Hi. Qed.
+
+Lemma lf_push_newline f o ind : fmt_lf f -> stream_lf o -> stream_lf (os_push_newline f o ind).
+Proof.
+  intros Hf H. unfold os_push_newline.
+  set (o2 := mkOs _ _ _ _ _).
+  assert (H2 : stream_lf o2).
+  { destruct Hf as [[pre [Hn Hp]] [Hb _]].
+    unfold o2, stream_lf, os_push_gen, line_of, column_of. cbn [os_events os_offset os_line os_column os_level].
+    destruct H as [Hw [Ho [Hl Hc]]]. cbn [events_lf val ev_off ev_line ev_col ev_text].
+    rewrite Hn. rewrite !app_length, !lf_count_app, !col_after_app.
+    cbn [lf_count col_after length]. rewrite N.eqb_refl. rewrite (col_after_nolf 0 _ Hb).
+    unfold line_of, column_of in *. repeat split; try assumption; lia. }
+  destruct ind as [[n|]|]; [apply lf_push_indent| apply lf_push_indent|]; assumption.
+Qed.
+
+Lemma lf_push_string f o s : fmt_lf f -> stream_lf o -> stream_lf (os_push_string f o s).
+Proof.
+  intros Hf H. unfold os_push_string. pose proof (split_crlf_nolf s) as Hl.
+  destruct (split_crlf s) as [|l0 ls]; [exact H|].
+  inversion Hl as [|x y H0 Hls]; subst.
+  assert (G : forall ls o', Forall (fun l => lf_count l = 0) ls -> stream_lf o' ->
+              stream_lf (fold_left (fun o'' l => os_push (os_push_newline f o'' (Some None)) l) ls o')).
+  { induction ls0 as [|l ls0 IH]; intros o' HF H'; cbn [fold_left]; [exact H'|].
+    inversion HF; subst. apply IH; [assumption|]. apply lf_push_gen; [assumption|].
+    apply lf_push_newline; assumption. }
+  apply G; [exact Hls|]. apply lf_push_gen; assumption.
+Qed.
+
+Theorem reach_lf f o : fmt_lf f -> reach f o -> stream_lf o.
+Proof.
+  intros Hf. induction 1.
+  - apply lf_empty.
+  - exact IHreach.
+  - apply lf_push_gen; assumption.
+  - apply lf_push_field; assumption.
+  - apply lf_push_newline; assumption.
+  - apply lf_push_indent; assumption.
+  - apply lf_push_string; assumption.
+Qed.
+
+Lemma lf_split : forall l a e b,
+  events_lf l -> rev l = a ++ e :: b ->
+  ev_off e = length (text_of a) /\ ev_line e = line_of (text_of a) /\ ev_col e = column_of (text_of a).
+Proof.
+  induction l as [|x l IH]; intros a e b Hw Hs.
+  - destruct a; discriminate.
+  - cbn [rev] in Hs. cbn [events_lf] in Hw. destruct Hw as [Hw [H1 [H2 H3]]].
+    destruct b as [|y b'] using rev_ind.
+    + apply app_inj_tail in Hs. destruct Hs as [Ha He]. subst x.
+      assert (Hl : l = rev a) by (rewrite <- Ha, rev_involutive; reflexivity).
+      subst l. rewrite val_text, rev_involutive in *. repeat split; assumption.
+    + clear IHb'. rewrite app_comm_cons, app_assoc in Hs. apply app_inj_tail in Hs.
+      destruct Hs as [Hs _]. eapply IH; eassumption.
+Qed.
+
+(* every callback invocation: the text it returns sits at [offset] in the final string, and
+   line / column are the line and column of that position in the final string *)
+Theorem positions_exact_lf f o a e b :
+  fmt_lf f -> reach f o -> chron o = a ++ e :: b ->
+  os_value o = text_of a ++ ev_text e ++ text_of b /\
+  ev_off e = length (text_of a) /\
+  ev_line e = line_of (text_of a) /\
+  ev_col e = column_of (text_of a).
+Proof.
+  intros Hf Hr Hs. pose proof (reach_lf f o Hf Hr) as [Hw _].
+  destruct (lf_split (os_events o) a e b Hw Hs) as [H1 [H2 H3]].
+  repeat split; try assumption.
+  change (os_value o) with (text_of (chron o)). rewrite Hs, text_of_app. reflexivity.
 Qed.
